@@ -421,8 +421,18 @@ def _is_predicate(term: Any) -> bool:
     return isinstance(term, (ContainsCriterion, RangeCriterion, NullCriterion))
 
 
+def _unwrapped(term: Any) -> Any:
+    """
+    The term an un-aliased ValueWrapper around a term renders as: such a wrapper adds no text of its own, so an operator
+    has to look at what is inside to decide whether the operand needs parentheses.
+    """
+    while isinstance(term, ValueWrapper) and isinstance(term.value, Term) and term.alias is None:
+        term = term.value
+    return term
+
+
 def _operand_sql(term: "Term", **kwargs: Any) -> str:
-    if _is_predicate(term):
+    if _is_predicate(_unwrapped(term)):
         # the operand gets its own parentheses here: do not let an enclosing NOT bracket it a second time
         kwargs.pop("subcriterion", None)
         return "({})".format(term.get_sql(**kwargs))
@@ -448,7 +458,7 @@ class Negative(Term):
 
     def get_sql(self, with_alias: bool = False, **kwargs: Any) -> str:
         term_sql = _operand_sql(self.term, **kwargs)
-        if isinstance(self.term, (ArithmeticExpression, Negative)) or term_sql.startswith("-"):
+        if isinstance(_unwrapped(self.term), (ArithmeticExpression, Negative)) or term_sql.startswith("-"):
             # the minus applies to the whole operand: -(a+b); "--" would start a comment: -(-a), -(-1)
             term_sql = "({})".format(term_sql)
         sql = "-{term}".format(term=term_sql)
@@ -1299,7 +1309,7 @@ class ArithmeticExpression(Term):
         return right_op in self.add_order
 
     def get_sql(self, with_alias: bool = False, **kwargs: Any) -> str:
-        left_op, right_op = [getattr(side, "operator", None) for side in [self.left, self.right]]
+        left_op, right_op = [getattr(_unwrapped(side), "operator", None) for side in [self.left, self.right]]
 
         # the left operand is rendered first: a parameter collector must see the values in the order of the text
         left_sql = _operand_sql(self.left, **kwargs)
